@@ -49,12 +49,19 @@ class SimLoop(base_events.BaseEventLoop):
     async def create_connection(self, factory, host=None, port=None, **kw):
         return self.net.connect(self, factory, port)
 
+    def call_exception_handler(self, context):
+        # exceptions inside MPyC coroutine tasks surface in done-callbacks: never swallow them
+        exc = context.get('exception')
+        self.net.errors.append(exc if exc is not None else RuntimeError(str(context.get('message'))))
+
     def step(self):
         events._set_running_loop(self)
         try:
             self._run_once()
         finally:
             events._set_running_loop(None)
+        if self.net.errors:
+            raise self.net.errors[0]
 
 
 class SimTransport(asyncio.Transport):
@@ -114,6 +121,7 @@ class Net:
         self.listeners = {}
         self.conns = []
         self.wire = []               # (src pid, dst pid, data) for every transport write
+        self.errors = []
 
     def listen(self, loop, factory, port):
         self.listeners[port] = (loop, factory)
@@ -197,6 +205,8 @@ class Sim:
             self.tasks.append(party.loop.create_task(main()))
 
     def done(self):
+        if any(tk.done() and not tk.cancelled() and tk.exception() is not None for tk in self.tasks):
+            return True
         return all(tk.done() for tk in self.tasks)
 
     def choices(self):
@@ -229,6 +239,12 @@ class Sim:
                 else:
                     c, side = arg
                     self.net.deliver(c, side)
+        return self.results()
+
+    def results(self):
+        for tk in self.tasks:
+            if tk.done() and not tk.cancelled() and tk.exception() is not None:
+                raise tk.exception()
         return [tk.result() for tk in self.tasks]
 
     def run_random(self, seed, chunk=None, max_steps=400000):
@@ -249,7 +265,7 @@ class Sim:
                 c, side = arg
                 n = None if chunk is None else rng.randint(1, min(chunk, len(c.queues[side])))
                 self.net.deliver(c, side, n)
-        return [tk.result() for tk in self.tasks]
+        return self.results()
 
 
 def run(env, m, t, program, args=(), mode='canonical', seed=0, chunk=None, **kw):
